@@ -1,0 +1,12 @@
+//go:build verif
+
+package ptr
+
+// Contracts for govc (contract-based deductive verification; see /verif/DESIGN.md).
+// This file holds only comments and is compiled only with -tags verif.
+
+// Of: a pointer to a fresh copy of v (used by the metadata decode hooks).
+//@ func Of
+//@   tags C07
+//@   modifies nothing
+//@   ensures result != nil && fresh(result)
